@@ -179,7 +179,9 @@ def judge_response(ctx, fns, spec, arrays, ds, err, little, sizes, where):
             with warnings.catch_warnings():
                 warnings.simplefilter("ignore")
                 # pydap addresses a variable by its stored name (`.` quoted as %2E)
-                var = ds[R.fqn(path, G.dap_quote(v["name"]))] if path else ds[G.dap_quote(v["name"])]
+                var = ds[G.dap_quote(fq)] if path else ds[G.dap_quote(v["name"])]
+                if var is not (ds[fq] if path else ds[v["name"]]):
+                    raise KeyError("declared spelling finds something else")
             data = np.asarray(var.data)
         except Exception as e:
             ctx.oracle_fail("declared variable missing from the decoded dataset", dict(case, var=fq), err_class(e), fq,
@@ -249,7 +251,7 @@ def check_responses(ctx, fns, n, label, big=False, **kw):
                                 spy.seen, doc_order, size=len(doc_order))
             if little:
                 x0 = G.xnode_sexp(G.et_of_dmr(text))
-                order_cases.append(("dmr-order " + x0, "(ok" + "".join(" " + G.hexs(k) for k in spy.seen) + ")"
+                order_cases.append(("dmr-order " + x0, "(ok" + "".join(" " + G.hexs(k) for k in spy_seen_quoted) + ")"
                                     if ds is not None else "(err %s)" % err, {"spec": spec}))
                 for t in G.layout_tags(spec):
                     ctx.tags[label + ":" + t] += 1
@@ -266,11 +268,11 @@ def check_responses(ctx, fns, n, label, big=False, **kw):
                     var = by_key.get(qkey)
                     key = G.dap_unquote(qkey)
                     if var is None:
-                        impl += " (%s missing)" % G.hexs(key)
+                        impl += " (%s missing)" % G.hexs(qkey)
                         continue
                     ck = var.attributes.get("checksum")
                     ck = "none" if ck is None or len(ck) == 0 else str(int(ck[0]))
-                    impl += " (%s (%s %s))" % (G.hexs(key), G.be_hex(var.data), ck)
+                    impl += " (%s (%s %s))" % (G.hexs(qkey), G.be_hex(var.data), ck)
                 impl += ")"
             x = G.xnode_sexp(G.et_of_dmr(text))
             cases.append(("dap4-response %s %s" % (x, hexb(resp)), impl, {"spec": spec, "little": little}))
@@ -334,12 +336,83 @@ def index_once(fns, spec, arrays, fq, idx, little, rng=None):
     return got, server
 
 
+def ce4_canon(fns, q):
+    """parse_ce(q, "dap4") in the grammar of Driver/Handler.lean `hProjItem`"""
+    from pydap.parsers import parse_ce
+    try:
+        proj, sel = parse_ce(q, "dap4")
+    except Exception as e:
+        return "(err %s)" % err_class(e)
+
+    def sl(x):
+        return "(s %s %s %s)" % tuple("none" if y is None else str(y) for y in (x.start, x.stop, x.step))
+    items = []
+    for it in proj:
+        if isinstance(it, str):
+            items.append("(call %s)" % G.hexs(it))
+        else:
+            items.append("(path%s)" % "".join(" (%s (%s))" % (G.hexs(n), " ".join(sl(x) for x in slc)) for n, slc in it))
+    return "(ok (%s) (%s))" % (" ".join(items), " ".join(G.hexs(x) for x in sel))
+
+
+CE4_FIXED = ["", "dap4.ce=", "a[0]", "a", "dap4.ce=a", "dap4.ce=a;b[1:2]", "dap4.ce=/g/v[0:1:3]|x>1", "dap4.ce=f(a;b);c",
+             "dap4.ce=s.m[1]", "dap4.ce=a[1:2:3:4]", "dap4.ce=a[x]", "dap4.ce=a%5B1%5D", "dap4.ce=/g%20h/v[2]",
+             "dap4.ce=a[1][2:3]|b<3|c=~x", "dap4.ce=x>1", "dap4.ce=a,b", "dap4.ce=/g/a[0:2:9];/g/b", "dap4.ce=|a",
+             "dap4.ce=a[]", "dap4.ce=a[", "dap4.ce=(a;b", "dap4.cf=a"]
+
+
+def check_parse_ce4(ctx, fns, requests):
+    """the DAP4 branch of parse_ce on the requests BaseProxyDap4 built in this run and on fixed shapes of queries"""
+    cases = []
+    for q in CE4_FIXED + requests:
+        if not G.is_ascii(q):
+            continue
+        cases.append(("dap4-parsece %s" % G.hexs(q), ce4_canon(fns, q), {"q": q}))
+        ctx.count(("ce4", q), q.startswith("dap4.ce=") and len(q) > 8, tag="parse_ce-dap4")
+    ctx.correspond("parse_ce(protocol='dap4') (parseCE4)", cases)
+    # what the DAP4 constraint-expression grammar says about a few fixed queries (written by hand from the DAP4
+    # specification: `;` separates projected variables, `|` filters, hyperslab [start:stride:last])
+    h = G.hexs
+    expect = {
+        "dap4.ce=a": "(ok ((path (%s ()))) ())" % h("a"),
+        "dap4.ce=a;b[1:2]": "(ok ((path (%s ())) (path (%s ((s 1 3 1))))) ())" % (h("a"), h("b")),
+        "dap4.ce=/g/v[0:1:3]|x>1": "(ok ((path (%s ((s 0 4 1))))) (%s))" % (h("/g/v"), h("x>1")),
+        "dap4.ce=/g/a[0:2:9];/g/b": "(ok ((path (%s ((s 0 10 2)))) (path (%s ()))) ())" % (h("/g/a"), h("/g/b")),
+        "a[0]": "(err ConstraintExpressionError)",
+        "dap4.ce=a[1:2:3:4]": "(err ConstraintExpressionError)",
+    }
+    for q, exp in expect.items():
+        got = ce4_canon(fns, q)
+        if got != exp:
+            ctx.oracle_fail("parse_ce (DAP4 branch) does not read a DAP4 constraint expression as the grammar says",
+                            {"kind": "ce4", "q": q, "expected": exp}, got, exp, size=len(q))
+    # the reference server's own parser reads the proxy's requests the same way
+    for q in requests:
+        try:
+            name, slices = R.parse_dap4_ce(q[len("dap4.ce="):])
+            exp = "(ok ((path (%s (%s)))) ())" % (G.hexs(name), " ".join(
+                "(s %d %d %d)" % (x.start, x.stop, x.step) for x in slices))
+        except Exception as e:
+            exp = "(err %s)" % err_class(e)
+        got = ce4_canon(fns, q)
+        if got != exp and "%" not in q[8:] and "." not in q[8:]:
+            ctx.oracle_fail("parse_ce (DAP4 branch) reads the proxy's request differently from the reference parser",
+                            {"kind": "ce4", "q": q}, got, exp, size=len(q))
+
+
 def check_index(ctx, fns, n):
     rng = ctx.rng("index")
     cases = []
+    e2e_cases = []
+    requests = []
     done = 0
     while done < n:
-        spec = G.gen_spec(rng, attrs=False, maxvars=3)
+        quoted = rng.random() < 0.2
+        spec = G.gen_spec(rng, attrs=False, maxvars=3) if not quoted else \
+            G.gen_spec(rng, attrs=False, maxvars=3, var_names=G.NAMES[:2] + [x for x in G.QUOTED_ASCII if "[" not in x],
+                       group_names=G.GROUP_NAMES[:2] + [x for x in G.QUOTED_GROUPS[:3] if "[" not in x])
+        # (names with brackets are left out here: net.GET quotes the query of an in-process application, after which
+        #  the brackets of a name, already %5B/%5D, and those of the hyperslab are the same text)
         arrays = G.gen_arrays(rng, spec)
         names = sorted(arrays)
         if not names:
@@ -371,10 +444,27 @@ def check_index(ctx, fns, n):
                 ctx.tags["index:last-index-beyond-extent(clipped by the reference server)"] += 1
             reqs = [q for (p, q) in server.requests if p.endswith(".dap")]
             ce = reqs[-1] if reqs else ""
-            ident = fq if fq.count("/") > 1 else fq[1:]
-            cases.append(("dap4-ce %s (%s) (%s)" % (G.hexs(ident), " ".join(map(str, arr.shape)),
-                                                    " ".join(idx_sexp(x) for x in idx)),
-                          G.hexs(ce), {"var": fq, "index": repr(idx)}))
+            ident = G.dap_quote(fq if fq.count("/") > 1 else fq[1:])
+            if "%" not in ident:
+                # (the reference server records the query after urllib's unquote: for ids with percent-escapes it
+                #  is not the text the proxy built)
+                cases.append(("dap4-ce %s (%s) (%s)" % (G.hexs(ident), " ".join(map(str, arr.shape)),
+                                                        " ".join(idx_sexp(x) for x in idx)),
+                              G.hexs(ce), {"var": fq, "index": repr(idx)}))
+            requests.append(ce)
+            if quoted:
+                ctx.tags["index:quoted-name"] += 1
+            if server.last is not None and "%" not in ident:
+                # the whole chain on the model: request, parse_ce (DAP4), numpy slicing of the source, serialisation
+                # in this byte order, the chunking the server used, decode, lookup  (fetchIndex4, C10_e2e_index)
+                last = server.last
+                e2e_cases.append((
+                    "dap4-e2e %d %s %d (%s) %s (%s) %s %s (%s) %d" % (
+                        1 if little else 0, G.hexs(ident), arr.dtype.itemsize, " ".join(map(str, arr.shape)),
+                        G.be_hex(arr), " ".join(idx_sexp(x) for x in idx), G.xnode_sexp(G.et_of_dmr(last["dmr"])),
+                        hexb(last["dmr"].encode("ascii") + b"\r\n"), " ".join(map(str, last["sizes"])), last["crc"]),
+                    "(ok (%s) %s)" % (" ".join(map(str, got.shape)), G.be_hex(got)),
+                    {"var": fq, "index": repr(idx), "little": little}))
             # numpy drops integer-indexed axes; the DAP4 response keeps them with extent 1 (as in DAP2): compare
             # the selected elements in order and the extents of the non-integer axes
             if got.size != exp.size or G.be_hex(got.reshape(-1)) != G.be_hex(exp.reshape(-1)) \
@@ -385,6 +475,8 @@ def check_index(ctx, fns, n):
             ctx.count(("index", fq, repr(idx), G.be_hex(arr)[:40]), len(idx) > 0,
                       tag="index:rank=%d:%s" % (arr.ndim, "group" if fq.count("/") > 1 else "root"))
     ctx.correspond("BaseProxyDap4.__getitem__ request", cases)
+    ctx.correspond("var[index] end to end (fetchIndex4, C10_e2e_index)", e2e_cases)
+    check_parse_ce4(ctx, fns, requests)
 
 
 # ------------------------------------------------------------------------------------------------
@@ -393,7 +485,9 @@ def run(ctx):
                 "chunks, fixed small sizes, random sizes, empty chunks; trailing junk, truncation, missing last flag, "
                 "garbage; a few payloads with chunks of 65 536 bytes and more); random datasets (10 numeric types, rank 0-3, shared/anonymous/mixed dimensions, groups to depth "
                 "3) serialised in both byte orders with random chunkings, decoded from a buffer and from a file; index "
-                "expressions (ints, negative, strided slices, Ellipsis, short tuples) through the reference DAP4 server; "
+                "expressions (ints, negative, strided slices, Ellipsis, short tuples) through the reference DAP4 server "
+                "(one dataset in five with names that DAP quoting changes), each also run through the model's whole "
+                "chain (dap4-e2e); parse_ce(protocol='dap4') on fixed query shapes and on every request of the run; "
                 "a case is non-trivial when it has several chunks or variables / a non-empty index")
     ctx.assumptions = ["host byte order is little-endian (sys.byteorder == %r here); decode_chunktype on a big-endian "
                        "host is characterised by C10_host_order_matters, not exercised" % sys.byteorder,
@@ -412,7 +506,9 @@ def explore(ctx, fns, tier):
     check_dechunk(ctx, fns, 1500 * k)
     check_responses(ctx, fns, 150 * k, "flat", groups=False)
     check_responses(ctx, fns, 300 * k, "groups")
-    check_responses(ctx, fns, 50 * k, "quoted-names", var_names=G.NAMES[:4] + G.QUOTED_NAMES)
+    # names that DAP quoting changes (ASCII only: the DMR chunk of a response is decoded as ASCII)
+    check_responses(ctx, fns, 60 * k, "quoted-names", var_names=G.NAMES[:3] + G.QUOTED_NAMES + G.QUOTED_ASCII,
+                    group_names=G.GROUP_NAMES[:2] + G.QUOTED_GROUPS[:3], dim_names=G.NAMES[:3] + G.QUOTED_DIMS)
     check_responses(ctx, fns, 1 if tier == "quick" else 6, "big", big=True)
     check_dechunk_big(ctx, fns, 1 if tier == "quick" else 6)
     check_index(ctx, fns, 250 * k)
@@ -432,6 +528,15 @@ def replay(payload):
         exp = (bool(t & 1), bool(t & 2), "<" if t & 4 else ">")
         print("observed", got, "expected", exp)
         return tuple(got) == exp
+    if c["kind"] == "ce4":
+        got = ce4_canon(fns, c["q"])
+        exp = c.get("expected")
+        if exp is None:
+            name, slices = R.parse_dap4_ce(c["q"][len("dap4.ce="):])
+            exp = "(ok ((path (%s (%s)))) ())" % (G.hexs(name), " ".join(
+                "(s %d %d %d)" % (x.start, x.stop, x.step) for x in slices))
+        print("observed", got, "expected", exp)
+        return got == exp
     if c["kind"] == "dechunk":
         payload_b = bytes.fromhex(c["payload"])
         wire = R.chunked(payload_b, c["sizes"], c["little"]) + bytes.fromhex(c.get("junk", ""))
